@@ -1031,8 +1031,19 @@ where
         settled: Option<bool>,
         state: DeliveryState,
     ) -> Result<(), RecvError> {
-        match &mut self.incomplete_transfer {
-            Some(incomplete) if *delivery_tag == incomplete.performative.delivery_tag => {
+        // A continuation frame may omit the delivery-tag, the state it carries is then the state of
+        // the delivery that is being reassembled
+        let tag_of_incomplete = match (delivery_tag, &self.incomplete_transfer) {
+            (None, Some(incomplete)) => incomplete.performative.delivery_tag.clone(),
+            _ => None,
+        };
+        let delivery_tag = match delivery_tag {
+            Some(_) => delivery_tag,
+            None => &tag_of_incomplete,
+        };
+
+        if let Some(incomplete) = &mut self.incomplete_transfer {
+            if *delivery_tag == incomplete.performative.delivery_tag {
                 if let DeliveryState::Received(received) = &state {
                     incomplete.keep_buffer_till_section_number_and_offset(
                         received.section_number,
@@ -1040,7 +1051,6 @@ where
                     );
                 }
             }
-            Some(_) | None => {}
         }
 
         self.link
